@@ -28,8 +28,16 @@ SECOND = [
 SCHEDULES = {"fifo": [(1970, "fifo")], "hifo": [(1970, "hifo")], "lifo": [(1970, "lifo")], "fifo->hifo@2021": [(1970, "fifo"), (2021, "hifo")]}
 
 
-def specs_for(hist: History, prefix: str, row_order: str = "reverse", scale: Any = 1, price_scale: Any = 1, tz: int = 0) -> Optional[List[Dict[str, Any]]]:
-    if tz:
+def specs_for(hist: History, prefix: str, row_order: str = "reverse", scale: Any = 1, price_scale: Any = 1, tz: int = 0, new_year: bool = False) -> Optional[List[Dict[str, Any]]]:
+    if tz and new_year:
+        # every timestamp written at that offset on New Year's Eve / New Year's Day: own YEAR != UTC year (21:30 on Dec 31 at -05:00 is Jan 1 in UTC,
+        # 03:00 on Jan 1 at +09:00 is Dec 31 in UTC); steps of 200 / 400 days leave the boundary, steps of a year come back to it
+        from datetime import datetime, timezone
+
+        hist = tuple((it[0], "y" if it[1] in ("200d", "400d") and n % 2 else it[1], tz) for n, it in enumerate(hist))
+        base = datetime(2021, 1, 1, 2, 30, 0, tzinfo=timezone.utc) if tz < 0 else datetime(2020, 12, 31, 18, 0, 0, tzinfo=timezone.utc)
+        specs = H.materialize(hist, row_order=row_order, uid=True, scale=scale, price_scale=price_scale, base=base)
+    elif tz:
         # every timestamp written in that UTC offset, instants starting at 18:00 UTC (offsets ahead of UTC) / 02:00 UTC (behind): own
         # calendar dates differ from the UTC dates
         from datetime import datetime, timezone
@@ -115,15 +123,15 @@ def histories(depth: int, steps: Sequence[str] = STEPS) -> Iterator[History]:
 
 def make_case(h1: History, second_index: Optional[int], schedule_name: str, window: Tuple[Optional[date], Optional[date]], country: str = "us", lang: str = "en",
               reports: Sequence[str] = ("rp2_full_report",), row_order: str = "reverse", row_order2: Optional[str] = None, scale: Any = 1,
-              price_scale: Any = 1, tz: int = 0) -> Optional[Dict[str, Any]]:
-    s1 = specs_for(h1, "a", row_order, scale, price_scale, tz)
+              price_scale: Any = 1, tz: int = 0, new_year: bool = False) -> Optional[Dict[str, Any]]:
+    s1 = specs_for(h1, "a", row_order, scale, price_scale, tz, new_year)
     if s1 is None:
         return None
     assets = {"B1": s1}
-    label = H.hist_str(h1) + (f" [amounts x {scale}, prices x {price_scale}]" if (scale != 1 or price_scale != 1) else "") + (f" [all timestamps at UTC{tz / 60:+.0f}h]" if tz else "")
+    label = H.hist_str(h1) + (f" [amounts x {scale}, prices x {price_scale}]" if (scale != 1 or price_scale != 1) else "") + (f" [all timestamps at UTC{tz / 60:+.0f}h{' around New Year' if new_year else ''}]" if tz else "")
     if second_index is not None:
         # by default the second asset's rows run the other way, so that a LATE row of one asset shares its number with an EARLY row of the other
-        s2 = specs_for(SECOND[second_index], "b", row_order2 or ("chrono" if row_order == "reverse" else "reverse"), tz=tz)
+        s2 = specs_for(SECOND[second_index], "b", row_order2 or ("chrono" if row_order == "reverse" else "reverse"), tz=tz, new_year=new_year)
         assert s2 is not None
         assets["B2"] = s2
         label += f" || B2: {H.hist_str(SECOND[second_index])}"
